@@ -334,6 +334,28 @@ class Body:
                 return False
             b = idom[b]
 
+    def rpo(self):
+        """{block: index in reverse postorder over the normal edges}: a linear order of the blocks that agrees with
+        dominance (a dominator comes first) and, for the forward edges of a reducible CFG, with execution order"""
+        if getattr(self, "_rpo", None) is None:
+            seen, post = set(), []
+            stack = [(0, iter([s for s, _ in self.succs(0)]))]
+            seen.add(0)
+            while stack:
+                n, it = stack[-1]
+                adv = False
+                for s in it:
+                    if s not in seen:
+                        seen.add(s)
+                        stack.append((s, iter([x for x, _ in self.succs(s)])))
+                        adv = True
+                        break
+                if not adv:
+                    post.append(n)
+                    stack.pop()
+            self._rpo = {n: i for i, n in enumerate(reversed(post))}
+        return self._rpo
+
     def return_blocks(self):
         return [i for i in self.reachable_blocks() if self.blocks[i]["t"]["k"] == "ret"]
 
